@@ -52,6 +52,9 @@ type c12Twins struct {
 	admA   *red.Client // raw client to A: used for housekeeping only (SCRIPT FLUSH)
 	rawB   *red.Client // the reference client
 	blockA ClosableNode
+	// mD: decoy server whose wrapper client is created AFTER the one of A, so that A's
+	// client is never the most recently created one in the process (see burst steps).
+	mD *miniredis.Miniredis
 }
 
 var (
@@ -110,6 +113,18 @@ func c12Renew(t *testing.T) {
 	for i := 0; !New(c12T.mA.Addr()).Ping(); i++ {
 		if i > 50 {
 			t.Fatalf("wrapper cannot reach miniredis A") // inconclusive run, not a verdict
+		}
+		time.Sleep(100 * time.Millisecond)
+	}
+	// the closed server of the breaker rule gets its client now, so that the decoy's
+	// client below is the most recently created one whenever a history runs
+	c12Dead(t)
+	if c12T.mD, err = miniredis.Run(); err != nil {
+		t.Fatalf("miniredis D: %v", err)
+	}
+	for i := 0; !New(c12T.mD.Addr()).Ping(); i++ {
+		if i > 50 {
+			t.Fatalf("wrapper cannot reach miniredis D")
 		}
 		time.Sleep(100 * time.Millisecond)
 	}
@@ -365,6 +380,8 @@ func (e *c12Env) step(s c12Step) string {
 		return ""
 	case "pipeline":
 		return e.pipeline(s)
+	case "burst":
+		return e.burst(s)
 	}
 	ent := c12Table[s.C]
 	if ent == nil {
@@ -487,6 +504,68 @@ func (e *c12Env) pipeline(s c12Step) string {
 	}
 	if gerr != nil {
 		e.classes["pipeline:error"] = true
+	}
+	return ""
+}
+
+// c12BurstScript keeps its connection busy for a moment (the loop) and then writes.
+const c12BurstScript = `local x = 0 for i = 1, tonumber(ARGV[2]) do x = x + 1 end redis.call('SET', KEYS[1], ARGV[1]) return x`
+
+// burst: K (> the 8 idle connections the wrapper keeps) commands are issued
+// concurrently through the wrapper, each on its own key, so that the shared client of
+// address A - created EARLIER than the client of another address (decoy D, and the
+// closed server of the breaker rule) - has to dial fresh connections. As always every
+// call must return what go-redis returns, the wrapper's OWN server must have processed
+// exactly those commands (the decoy none) and the keyspaces must agree.
+func (e *c12Env) burst(s c12Step) string {
+	k, loops := int(s.I[0]), s.I[1]
+	e.ncmd++
+	e.classes["cmd:burst"] = true
+	tw := e.tw
+	ca0, cb0, cd0 := tw.mA.CommandCount(), tw.mB.CommandCount(), tw.mD.CommandCount()
+	conns0 := tw.mA.TotalConnectionCount()
+	ctx, cancel := c12Ctx(c12Step{X: s.X})
+	defer cancel()
+	got := make([]any, k)
+	gerrs := make([]error, k)
+	start := make(chan struct{})
+	var wg sync.WaitGroup
+	r := e.r
+	for i := 0; i < k; i++ {
+		wg.Add(1)
+		go func(i int) {
+			defer wg.Done()
+			key, val := fmt.Sprintf("burst:%d", i), fmt.Sprintf("v%d", i)
+			<-start
+			if s.X {
+				got[i], gerrs[i] = r.EvalCtx(ctx, c12BurstScript, []string{key}, val, loops)
+			} else {
+				got[i], gerrs[i] = r.Eval(c12BurstScript, []string{key}, val, loops)
+			}
+		}(i)
+	}
+	close(start)
+	wg.Wait()
+	for i := 0; i < k; i++ {
+		key, val := fmt.Sprintf("burst:%d", i), fmt.Sprintf("v%d", i)
+		want, werr := tw.rawB.Eval(context.Background(), c12BurstScript, []string{key}, val, loops).Result()
+		e.noteErr(gerrs[i])
+		if c12ErrStr(gerrs[i]) != c12ErrStr(werr) || (werr == nil && c12Canon(got[i], false) != c12Canon(want, false)) {
+			return fmt.Sprintf("concurrent call %d of %d: wrapper (%s, %q), go-redis (%s, %q)", i, k,
+				c12Canon(got[i], false), c12ErrStr(gerrs[i]), c12Canon(want, false), c12ErrStr(werr))
+		}
+	}
+	if da, db := tw.mA.CommandCount()-ca0, tw.mB.CommandCount()-cb0; da != db {
+		return fmt.Sprintf("%d concurrent commands: the wrapper's own server processed %d commands, the go-redis server %d", k, da, db)
+	}
+	if dd := tw.mD.CommandCount() - cd0; dd != 0 {
+		return fmt.Sprintf("%d concurrent commands through the client of %s: the server of ANOTHER address (%s) processed %d commands", k, tw.mA.Addr(), tw.mD.Addr(), dd)
+	}
+	if d := c12DiffKeyspace(c12Snapshot(tw.mA), c12Snapshot(tw.mB)); d != "" {
+		return "keyspaces differ after the concurrent commands: " + d
+	}
+	if tw.mA.TotalConnectionCount() > conns0 {
+		e.classes["burst:dialled-new-connections"] = true
 	}
 	return ""
 }
@@ -616,6 +695,8 @@ func c12GenStep(g *c12G, top bool) c12Step {
 		d := ds[g.uni(len(ds))]
 		g.elapsed += time.Duration(d) * time.Millisecond
 		return c12Step{C: "advance", I: []int64{d}}
+	case top && roll == 10 && g.uni(3) == 0: // about 1 step in 300
+		return c12Step{C: "burst", X: g.uni(2) == 1, I: []int64{int64(12 + g.uni(13)), 3000}}
 	case top && roll < 10:
 		np := g.uni(6)
 		s := c12Step{C: "pipeline", X: g.uni(2) == 1}
